@@ -63,6 +63,9 @@ func (f *Frame) call(ins ssa.Instruction, c *ssa.CallCommon) *SVal {
 			all := append(append([]*SVal{}, args...))
 			return f.inlineOrContract(fv.Clo.Fn, all, fv.Clo, rt, pos)
 		}
+		if r, ok := f.dynCall(fv, c, args, rt, pos); ok {
+			return r
+		}
 		return f.havocCall(nil, "dynamic call", c, args, rt, pos)
 	}
 	if mc, ok := c.Value.(*ssa.MakeClosure); ok {
@@ -284,6 +287,10 @@ func (f *Frame) callContract(ct *Contract, callee *ssa.Function, sig *types.Sign
 			g.havocAlloc(post, f.curReach)
 		}
 	}
+	if !ct.NonBlocking {
+		g.advanceClock(f.curReach, pre, post)
+		f.mayBlock(pos, key)
+	}
 	f.curState = post
 	var res []*SVal
 	for i := 0; i < sig.Results().Len(); i++ {
@@ -343,6 +350,7 @@ func (f *Frame) havocCall(callee *ssa.Function, key string, c *ssa.CallCommon, a
 		}
 	}
 	f.checkNamesAllowed(ms, pos, key)
+	preClock := f.curState
 	if ms.all {
 		f.curState = g.newEpochState()
 		g.assume("true", wmInv(g.heapGet(f.curState, allocHeap, allocSort)))
@@ -351,6 +359,8 @@ func (f *Frame) havocCall(callee *ssa.Function, key string, c *ssa.CallCommon, a
 		g.havocNames(f.curState, ms)
 		g.havocAlloc(f.curState, f.curReach)
 	}
+	g.advanceClock(f.curReach, preClock, f.curState)
+	f.mayBlock(pos, key)
 	if rt == nil {
 		return nil
 	}
@@ -779,13 +789,29 @@ func (f *Frame) builtin(name string, args []*SVal, c *ssa.CallCommon, rt types.T
 		return args[0]
 	case "String": // unsafe.String
 		g.usedStr = true
+		if src := g.sliceDataOf[args[0].Term]; src != nil && kindOf(src.T.Underlying().(*types.Slice).Elem()) == KInt && elemBits(src.T.Underlying().(*types.Slice).Elem()) == 8 {
+			// unsafe.String(unsafe.SliceData(b), n): the bytes of b at this point (the aliasing with later
+			// writes to b is not modelled: strings are immutable values here)
+			g.note("%s: unsafe.String(unsafe.SliceData(b), n) is the string of b's first n bytes at that point (later writes to b are not reflected)", f.fn.String())
+			n := idx64(args[1])
+			f.oblige("panic", sAnd(sApp("bvsge", n, bv64(0)), sApp("bvsle", n, src.Sub[3].Term)), pos, "unsafe.String: length within the slice's capacity")
+			h := g.heapGet(f.curState, elemFam(tByte), g.elemHeapSort(tByte))
+			return scalar(rt, KString, sApp("str_of_bytes", sSel(h, src.Sub[0].Term), src.Sub[1].Term, n))
+		}
 		g.note("%s: unsafe.String abstracted (arbitrary string of the given length)", f.fn.String())
 		r := scalar(rt, KString, g.fresh("ustr", SStr))
 		g.assume(f.curReach, sEq(sApp("strlen", r.Term), idx64(args[1])))
 		return r
 	case "StringData", "SliceData":
 		g.note("%s: unsafe.%s abstracted (opaque pointer)", f.fn.String(), name)
-		return &SVal{T: rt, K: KPtr, Term: g.fresh("udata", SBV64), Prov: &Prov{Kind: -1}}
+		r := &SVal{T: rt, K: KPtr, Term: g.fresh("udata", SBV64), Prov: &Prov{Kind: -1}}
+		if name == "SliceData" && args[0].K == KSlice {
+			if g.sliceDataOf == nil {
+				g.sliceDataOf = map[string]*SVal{}
+			}
+			g.sliceDataOf[r.Term] = args[0]
+		}
+		return r
 	case "Slice": // unsafe.Slice(ptr, n)
 		g.note("%s: unsafe.Slice abstracted (fresh backing array of the given length)", f.fn.String())
 		n := idx64(args[1])
@@ -925,4 +951,85 @@ func (f *Frame) dispatchCall(c *ssa.CallCommon, args []*SVal, rt types.Type, pos
 		}
 	}
 	return res
+}
+
+// dynCall: a call through a function value, where the contract names the possible targets
+// ("dyncall f1, f2": functions of exactly the callee's signature). The value must provably be one of
+// them (an obligation); the call is then a case split over the named functions.
+func (f *Frame) dynCall(fv *SVal, c *ssa.CallCommon, args []*SVal, rt types.Type, pos token.Pos) (*SVal, bool) {
+	g := f.g
+	if f.contract == nil || !f.isTop {
+		return nil, false
+	}
+	sig, ok := c.Value.Type().Underlying().(*types.Signature)
+	if !ok {
+		return nil, false
+	}
+	for _, set := range f.contract.DynCalls {
+		var fns []*ssa.Function
+		okSet := true
+		for _, cl := range set {
+			var fn *ssa.Function
+			func() {
+				defer func() {
+					if r := recover(); r != nil {
+						if _, isSpec := r.(specErr); !isSpec {
+							panic(r)
+						}
+					}
+				}()
+				env := f.specEnv(f.curState, f.entry)
+				v := env.eval(cl.E)
+				if v.K == KFunc && v.Clo != nil {
+					fn = v.Clo.Fn
+				}
+			}()
+			if fn == nil || !types.Identical(fn.Signature, sig) {
+				okSet = false
+				break
+			}
+			fns = append(fns, fn)
+		}
+		if !okSet || len(fns) == 0 {
+			continue
+		}
+		var alts []string
+		for _, fn := range fns {
+			alts = append(alts, sEq(fv.Term, bv64(int64(g.W.funcID(fn.String())))))
+		}
+		o := f.oblige("dyncall", sOr(alts...), pos, "function value is one of the targets named by the dyncall clause")
+		o.Clause = "dyncall"
+		baseReach, baseState := f.curReach, f.curState
+		var conds []string
+		var sts []*State
+		var vals []*SVal
+		for i, fn := range fns {
+			f.curReach = g.define("r.dyn", SBool, sAnd(baseReach, alts[i]))
+			f.curState = g.clone(baseState)
+			g.note("dyncall: %s", fn.String())
+			r := f.inlineOrContract(fn, args, nil, rt, pos)
+			conds = append(conds, f.curReach)
+			sts = append(sts, f.curState)
+			vals = append(vals, r)
+		}
+		f.curReach = g.define("r.dyn.join", SBool, sOr(conds...))
+		f.curState = g.join(sts, conds)
+		res := vals[len(vals)-1]
+		for i := len(vals) - 2; i >= 0; i-- {
+			if vals[i] != nil && res != nil {
+				res = g.iteVal(conds[i], vals[i], res)
+			}
+		}
+		return res, true
+	}
+	return nil, false
+}
+
+// mayBlock: a function whose contract says nonblocking may only call (by contract or havoc) callees that
+// are nonblocking themselves.
+func (f *Frame) mayBlock(pos token.Pos, key string) {
+	if f.g.nonBlockingUnit && f.g.specMode == 0 {
+		o := f.oblige("nonblocking", "false", pos, "a function declared nonblocking calls "+shortName(key)+", which may block")
+		o.Clause = "nonblocking"
+	}
 }
